@@ -29,7 +29,7 @@ Definition cond_check (cd : cond) (v : cell) : bool :=
   end.
 (* truth value of a cell returned by a callable *)
 Definition truthy (c : cell) : bool :=
-  match c with CNone => false | CNum _ t => negb (Z.eqb t 0) | CNaN _ => true | CStr s => negb (String.eqb s "") | CDate _ => true end.
+  match c with CNone => false | CNum _ t => negb (Z.eqb t 0) | CNaN _ => true | CStr s => negb (String.eqb s "") | CDate _ => true | CInf _ => true end.
 Inductive query := QNone | QFun (f : rowfn) | QFilters (fs : list (colname * cond)).
 
 (* ------------------------------------------------------------------ concrete *)
@@ -107,3 +107,7 @@ Definition r_find (r : rtable) (key : colname) (q : query) : res cell :=
     | x :: rest => if forallb (same_cell x) rest then Ok x else Err EValue
     end
   else Err EKey.
+
+(* one_or_none: None when nothing is selected, the row when exactly one is, ValueError otherwise *)
+Definition r_one_or_none (r : rtable) (q : query) : res (option record) :=
+  r_inc r q >>= fun t => match recs t with [] => Ok None | [x] => Ok (Some x) | _ => Err EValue end.
